@@ -99,7 +99,7 @@ var addrRe = regexp.MustCompile(`0x[0-9a-f]{6,}`)
 
 // "expected one of: a, b, c" lists the declared keys in the order a map happened to be walked in; the walk may go
 // through maps.Keys or reflection, which the map-order seam does not control. The list is compared as a set.
-var keyListRe = regexp.MustCompile(`expected one of: ([^;\n]*)`)
+var keyListRe = regexp.MustCompile(`expected one of: (?:[^,;)\n]+, )*[^,;)\n]+`)
 
 func sortKeyLists(s string) string {
 	return keyListRe.ReplaceAllStringFunc(s, func(m string) string {
